@@ -6,7 +6,7 @@ Import ListNotations.
 Local Open Scope list_scope.
 
 (* a filter expression is a boolean formula over "threshold k <= severity" *)
-Fixpoint holds (th : thresholds) (f : fexpr) (sv : sev) : bool :=
+Fixpoint holds (th : ktable) (f : fexpr) (sv : sev) : bool :=
   match f with
   | FNull => true
   | FThr k => rank (th k) <=? rank sv
@@ -18,9 +18,10 @@ Fixpoint holds (th : thresholds) (f : fexpr) (sv : sev) : bool :=
 (* compile-time gate: the statement's severity is at or above the compile-time minimum *)
 Definition gate_open (min sv : sev) : bool := rank min <=? rank sv.
 
-(* a statement is enabled iff the gate is open and the runtime filter expression accepts its severity *)
+(* a statement is enabled iff the gate is open and the runtime filter expression accepts its severity under the
+   thresholds configured for ITS logger's record type *)
 Definition enabled (min : sev) (th : thresholds) (lg : logger) (sv : sev) : bool :=
-  gate_open min sv && holds th (lg_filter lg) sv.
+  gate_open min sv && holds (th (lg_rec lg)) (lg_filter lg) sv.
 
 (* the tag a record carries: the tag argument read as a C string, empty when there is none *)
 Definition tag_text (tag : option str) : str := match tag with None => [] | Some t => cstr t end.
@@ -32,8 +33,11 @@ Definition message (its : list item) : str := concat (map item_text its).
 Definition calls_of (its : list item) : list nat :=
   flat_map (fun it => match it with ICall _ id _ => [id] | _ => [] end) its.
 
-Definition delivered (sv : sev) (tag : option str) (its : list item) : record :=
-  mkRecord sv (tag_text tag) (message its).
+(* … as far as the logger's record type has a tag attribute at all *)
+Definition rec_tag (lg : logger) (tag : option str) : str := if lg_tagged lg then tag_text tag else [].
+
+Definition delivered (lg : logger) (sv : sev) (tag : option str) (its : list item) : record :=
+  mkRecord sv (rec_tag lg tag) (message its).
 
 (* one record reaches the formatter once and then every member of the sequence once, in declaration order *)
 Definition delivery (cfg : config) (lg : logger) (sv : sev) (r : record) : list event :=
@@ -43,7 +47,7 @@ Definition delivery (cfg : config) (lg : logger) (sv : sev) (r : record) : list 
 Definition spec_stmt (cfg : config) (th : thresholds) (lg : logger) (sv : sev) (tag : option str)
            (its : list item) : list event :=
   if enabled (c_min cfg) th lg sv
-  then map Call (calls_of its) ++ delivery cfg lg sv (delivered sv tag its)
+  then map Call (calls_of its) ++ delivery cfg lg sv (delivered lg sv tag its)
   else [].
 
 (* ---------------------------------------------------------------- programs: logical streams *)
@@ -67,12 +71,12 @@ Definition spec_close (cfg : config) (sw : sworld) (v : nat) : sworld * list eve
 
 Definition spec_op (cfg : config) (sw : sworld) (o : op) : sworld * list event :=
   match o with
-  | OSet k s => (mkSW (set_threshold (s_th sw) k s) (s_slots sw), [])
+  | OSet rc k s => (mkSW (set_threshold (s_th sw) rc k s) (s_slots sw), [])
   | OOne lg sv tag its => (sw, spec_stmt cfg (s_th sw) lg sv tag its)
   | OOpen v lg sv tag =>
       let '(sw1, ev) := spec_close cfg sw v in
       (mkSW (s_th sw1) (set_lslot (s_slots sw1) v
-              (Some (mkL lg sv (tag_text tag) (enabled (c_min cfg) (s_th sw1) lg sv) []))), ev)
+              (Some (mkL lg sv (rec_tag lg tag) (enabled (c_min cfg) (s_th sw1) lg sv) []))), ev)
   | OPut v it =>
       match s_slots sw v with
       | None => (sw, [])
@@ -102,13 +106,13 @@ Definition spec_run (cfg : config) (ops : list op) : list event := snd (spec_pro
 Inductive form := OneExpr | Named.
 
 Inductive sitem :=
-| SSet (k : nat) (s : sev)
+| SSet (rc k : nat) (s : sev)
 | SStmt (f : form) (lg : logger) (sv : sev) (tag : option str) (its : list item).
 
 (* the program text of a statement sequence; named statements all use variable 0 *)
 Definition sitem_ops (x : sitem) : list op :=
   match x with
-  | SSet k s => [OSet k s]
+  | SSet rc k s => [OSet rc k s]
   | SStmt OneExpr lg sv tag its => [OOne lg sv tag its]
   | SStmt Named lg sv tag its => named_ops 0 lg sv tag its
   end.
@@ -117,7 +121,7 @@ Definition sitem_ops (x : sitem) : list op :=
 Fixpoint spec_seq (cfg : config) (th : thresholds) (l : list sitem) : list event :=
   match l with
   | [] => []
-  | SSet k s :: rest => spec_seq cfg (set_threshold th k s) rest
+  | SSet rc k s :: rest => spec_seq cfg (set_threshold th rc k s) rest
   | SStmt _ lg sv tag its :: rest => spec_stmt cfg th lg sv tag its ++ spec_seq cfg th rest
   end.
 
@@ -125,9 +129,9 @@ Fixpoint spec_seq (cfg : config) (th : thresholds) (l : list sitem) : list event
 Fixpoint arrivals (min : sev) (th : thresholds) (l : list sitem) : list (logger * record) :=
   match l with
   | [] => []
-  | SSet k s :: rest => arrivals min (set_threshold th k s) rest
+  | SSet rc k s :: rest => arrivals min (set_threshold th rc k s) rest
   | SStmt _ lg sv tag its :: rest =>
-      (if enabled min th lg sv then [(lg, delivered sv tag its)] else []) ++ arrivals min th rest
+      (if enabled min th lg sv then [(lg, delivered lg sv tag its)] else []) ++ arrivals min th rest
   end.
 
 (* the records the formatter saw, and the (severity, text) pairs member i of the sequence received, in order of arrival *)
